@@ -257,3 +257,37 @@ Proof.
   inversion H as [|? ? [Hc Hcan] Hr]; subst. cbn [fold_left map].
   rewrite (update_info_strip f i channels bps Hc Hcan). apply IH. exact Hr.
 Qed.
+
+(* C01 / C02 for the multi-threaded encoder's stream: the bytes written for the stream of precomputed frames decode, with the
+   independent strict decoder, to the given STREAMINFO and exactly the input samples, and pass the strict validator *)
+Section ParEndToEnd.
+  Variable ent : N -> N -> N -> N.
+  Variable qlpc : N -> N -> qparams.
+  Variable md5 : list N -> list N.
+
+  Theorem par_stream_end_to_end cfg rate channels bps bs samples s sp bytes (total : nat) :
+    encode_stream ent qlpc md5 cfg rate channels bps bs samples = Ok s ->
+    precompute_stream s = Ok sp -> stream_bytes sp = Ok bytes ->
+    cfg_max_parameter cfg <= 14 -> In bps [8; 12; 16; 20; 24] -> 1 <= rate <= 96000 -> 1 <= channels <= 8 ->
+    16 <= bs <= c_MAX_BLOCK_SIZE ->
+    length samples = (total * N.to_nat channels)%nat -> N.of_nat total < 2 ^ 36 ->
+    length (md5 (md5_input bps samples)) = 16%nat -> Forall lt256 (md5 (md5_input bps samples)) ->
+    (forall j b, nth_error (chunks (N.to_nat (bs * channels)) samples) j = Some b ->
+                 block_hyps qlpc cfg (N.of_nat j) channels bps b (length b / N.to_nat channels)) ->
+    (exists minf maxf,
+       decode_stream bytes = Some (mkSinfo bs bs minf maxf rate channels bps (N.of_nat total) (md5 (md5_input bps samples)), samples))
+    /\ strict_ok bytes = true.
+  Proof.
+    intros E Ep Eb Hmp Hbps Hrate Hch Hbs Hlen Htot Hml Hm256 Hblocks.
+    assert (Hbs1 : 1 <= bs <= c_MAX_BLOCK_SIZE) by lia.
+    assert (Hr96 : rate <= 96000) by lia.
+    destruct (par_encoded_stream ent qlpc md5 cfg rate channels bps bs samples s sp bytes total E Ep Eb Hmp Hbps Hr96 Hch Hbs1 Hlen Htot Hml Hm256 Hblocks)
+      as (Esb & _ & _).
+    assert (Eall : encode_stream_bytes ent qlpc md5 cfg rate channels bps bs samples = Ok bytes).
+    { unfold encode_stream_bytes. rewrite E. cbn [bind]. exact Esb. }
+    assert (Hr20 : 1 <= rate < 2 ^ 20) by (change (2 ^ 20) with 1048576; lia).
+    split.
+    - exact (stream_end_to_end ent qlpc md5 cfg rate channels bps bs samples bytes total Eall Hmp Hbps Hr20 Hch Hbs Hlen Htot Hml Hm256 Hblocks).
+    - exact (stream_strict_ok ent qlpc md5 cfg rate channels bps bs samples bytes total Eall Hmp Hbps Hr20 Hch Hbs Hlen Htot Hml Hm256 Hblocks).
+  Qed.
+End ParEndToEnd.
